@@ -95,7 +95,8 @@ package crlreader
 //@   requires readerOK(reader)
 //@   assigns X.stream, X.spos, X.hacc, X.hkind, E.uint8
 //@ func findAlgorithmIdentifierInCRL
-//@   props C06 C07
+//@   props C04 C06 C07
+//@   ensures[C04,C06] signature_algorithm_is_read_behind_the_signed_portion: err == nil ==> called(HashingReaderWrapper.Discard#1) && res(HashingReaderWrapper.Discard#1) == nil && called(TagLength.CalculateTLVLength#1) && called(PeekTagLength#1) && arg(HashingReaderWrapper.Discard#1, 1) == wrap64(big(res(TagLength.CalculateTLVLength#1))) && called(ReadStruct#1) && ret == payload(arg(ReadStruct#1, 1))
 //@   requires file != nil
 //@   assigns X.stream, X.spos, X.fs, X.hacc, X.hkind, E.uint8
 //@   ensures err == nil ==> ret != nil
